@@ -166,6 +166,7 @@ func TestRace_GRPCBroker(t *testing.T) {
 				})
 				run(func() { c.Dispense("g"); c.Ping() })
 			}
+			sharedOpts := append(make([]grpc.DialOption, 0, 8), grpc.WithUserAgent("race-pass"))
 			pair := func(i int) {
 				id := uint32(2000 + i)
 				ab, db := hb, pb
@@ -177,7 +178,8 @@ func TestRace_GRPCBroker(t *testing.T) {
 					grpctest.RegisterPingPongServer(sv, pp{})
 					return sv
 				})
-				if cc, err := db.Dial(id); err == nil {
+				// a slice of options shared by all diallers, with spare capacity (what append-built "common options" look like)
+				if cc, err := db.DialWithOptions(id, sharedOpts...); err == nil {
 					ctx, cancel := context.WithTimeout(context.Background(), 5*time.Second)
 					grpctest.NewPingPongClient(cc).Ping(ctx, &grpctest.PingRequest{})
 					cancel()
